@@ -110,7 +110,10 @@ def lower1(ctx) -> List[Ob]:
     chains = find_class_chains(he.node, params[0])
     if not chains:
         raise AnalysisError("handle_expression: no class dispatch found")
-    subj, arms = chains[0]
+    subj = chains[0][0]
+    # the dispatch may be one chain or several guarded blocks in sequence (`if BoolOp: .. return` then a chain
+    # for the rest): every arm of every chain over the parameter counts
+    arms = [a for _s, arms_ in chains for a in arms_]
     for arm in arms:
         if arm.test is None:
             continue
@@ -164,7 +167,11 @@ def lower2(ctx) -> List[Ob]:
     he = _handle_expression(ctx)
     em = _emitters(ctx)
     params = [p.arg for p in he.params if p.arg != "self"]
-    subj, arms = find_class_chains(he.node, params[0])[0]
+    chains_ = find_class_chains(he.node, params[0])
+    if not chains_:
+        raise AnalysisError("handle_expression: no class dispatch found")
+    subj = chains_[0][0]
+    arms = [a for _s, arms_ in chains_ for a in arms_]
     boolarm = next((a for a in arms if a.test is not None and "BoolOp" in A.unparse(a.test)), None)
     if boolarm is None:
         raise AnalysisError("handle_expression: no BoolOp arm")
@@ -1061,7 +1068,9 @@ def lower14(ctx) -> List[Ob]:
         body_txt = [A.unparse(s) for s in g.body]
         shrinks = any(t in (f"{X}.pop()", f"{X}.pop(1)", f"{X}.pop(-1)", f"del {X}[1]", f"del {X}[-1]", f"{X}[:] = {X}[:1]", f"del {X}[1:]") for t in body_txt)
         wraps = any(isinstance(s, ast.Assign) and A.unparse(s.targets[0]).endswith(".instructions[-1]") and isinstance(s.value, ast.Call) and (A.dotted(s.value.func) or "") == "ast.Expr" and s.value.args and A.unparse(s.value.args[0]) == A.unparse(s.targets[0]) for s in g.body)
-        same_loop = any(any(a is lp for a in A.ancestors(g)) for lp in [next((a for a in A.ancestors(stores[-1]) if isinstance(a, ast.For)), None)] if lp is not None)
+        # the check sits in a loop that also contains the renames (the per-block loop; the renames may sit in an
+        # inner loop over the positions)
+        same_loop = any(isinstance(lp, ast.For) and any(a is lp for a in A.ancestors(g)) for lp in A.ancestors(stores[-1]))
         probs = []
         if A.lineno(g) < last_store_line:
             probs.append("the check runs before the last rename")
